@@ -140,3 +140,15 @@ Proof. exact tie_is_request_method_understood. Qed.
 Print Assumptions C06_source_storability.
 Print Assumptions C06_source_status_tables.
 Print Assumptions C06_source_method_gate.
+
+(* the effect trees this property is stated about — which store / origin / clock operations happen, in which order, under
+   which conditions, and what every path returns — are those /verif/translate derives from the Go source on this run
+   (Generated/SrcEffects.v; equal up to the extensional equality of continuations, ProgEq.peq, which [run] respects) *)
+From HC.Generated Require Import SrcEffects.
+From HC.Proofs Require Import ProgEq TieEffects.
+Theorem C06_source_effects :
+  (forall q k refs i, peq (src_handle_cache_miss q k refs i) (handle_cache_miss q k refs i)) /\
+  (forall ctx q rep, peq (src_handle_validation_response ctx q rep) (handle_validation_response ctx q rep)) /\
+  (forall q k, peq (src_handle_unrecognized_method q k) (handle_unrecognized_method q k)).
+Proof. repeat split; [exact tie_handle_cache_miss|exact tie_handle_validation_response|exact tie_handle_unrecognized_method]. Qed.
+Print Assumptions C06_source_effects.
